@@ -16,7 +16,8 @@ EXTENDS EggAbs, Json, IOUtils
 
 Rec == ndJsonDeserialize(IOEnv.TRACE)
 
-VARIABLE l
+VARIABLES l,
+          tainted   \* a rule run has failed earlier in this session (see Judge)
 
 \* ---------------------------------------------------------------- AbsOf
 CanonFn(ev) == [p \in {ev.canon[i] : i \in 1 .. Len(ev.canon)} |-> p[2]]
@@ -59,24 +60,31 @@ Expect(c) ==
 
 Bad(code) == PrintT(<<"BAD", l, code>>)
 
-\* every failed predicate prints one BAD line; always TRUE
+\* every failed predicate prints one BAD line; always TRUE.
+\* After a rule run that failed at run time the engine has consumed the matches of
+\* the failed iteration (their rules' last-run timestamps advanced) without
+\* applying all of them, and the specification does not predict which were
+\* applied: from then on (`tainted`) the outcome of later RUN commands is only
+\* required to be consistent (raw invariants, no panic), not equal to the naive
+\* re-evaluation; all other commands are still checked exactly.
+Exact(ev) == ~(tainted /\ ev.c.k = "run")
 Judge(ev, exp, obs) ==
   /\ (ev.res = "panic") => Bad("panicked")
   /\ (~RawKeysUnique(ev)) => Bad("raw-duplicate-key")
   /\ (~RawIdsCanonical(ev)) => Bad("raw-noncanonical-id")
   /\ (RawIdsCanonical(ev) /\ ~RawCongruenceClosed(ev)) => Bad("raw-congruence-open")
-  /\ (exp.ok /\ ev.res = "err") => Bad(IF ev.c.k = "check" THEN "check-failed-but-holds" ELSE "unexpected-error")
-  /\ (~exp.ok /\ ev.res = "ok") => Bad(IF ev.c.k = "check" THEN "check-passed-but-fails" ELSE "missing-error")
-  /\ (exp.ok /\ ev.res = "ok" /\ ~IsWild(exp.rows) /\ obs # exp.rows) =>
+  /\ (Exact(ev) /\ exp.ok /\ ev.res = "err") => Bad(IF ev.c.k = "check" THEN "check-failed-but-holds" ELSE "unexpected-error")
+  /\ (Exact(ev) /\ ~exp.ok /\ ev.res = "ok") => Bad(IF ev.c.k = "check" THEN "check-passed-but-fails" ELSE "missing-error")
+  /\ (Exact(ev) /\ exp.ok /\ ev.res = "ok" /\ ~IsWild(exp.rows) /\ obs # exp.rows) =>
         (Bad("state-mismatch") /\ PrintT(<<"DIFF", l, ToJson([missing |-> exp.rows \ obs, extra |-> obs \ exp.rows])>>))
   /\ (~exp.ok /\ ev.c.k \in {"check", "bad"} /\ obs # rows) => Bad("state-changed-by-rejected-command")
-  /\ (ev.res = "ok" /\ ev.c.k = "run" /\ Has(ev, "upd") /\ ev.upd # (IF exp.upd THEN 1 ELSE 0) /\ exp.ok) => Bad("updated-flag")
+  /\ (Exact(ev) /\ ev.res = "ok" /\ ev.c.k = "run" /\ Has(ev, "upd") /\ ev.upd # (IF exp.upd THEN 1 ELSE 0) /\ exp.ok) => Bad("updated-flag")
 
 TDecl ==
   /\ l <= Len(Rec) /\ Rec[l].e = "decl" /\ l' = l + 1
   /\ prog' = Rec[l].prog
   /\ active' = {Rec[l].active[i] : i \in 1 .. Len(Rec[l].active)}
-  /\ rows' = {} /\ stack' = <<>> /\ res' = "ok"
+  /\ rows' = {} /\ stack' = <<>> /\ res' = "ok" /\ tainted' = FALSE
 
 TCmd ==
   /\ l <= Len(Rec) /\ Rec[l].e = "cmd" /\ l' = l + 1
@@ -87,6 +95,7 @@ TCmd ==
      IN /\ Judge(ev, exp, obs)
         /\ res' = ev.res
         /\ prog' = prog
+        /\ tainted' = (tainted \/ (c.k = "run" /\ ev.res # "ok"))
         /\ IF c.k = "pop" /\ ev.res = "ok" /\ Len(stack) > 0
            THEN /\ rows' = obs
                 /\ active' = stack[Len(stack)][2]
@@ -96,8 +105,8 @@ TCmd ==
                 /\ stack' = IF c.k = "push" /\ ev.res = "ok" THEN Append(stack, <<rows, active>>) ELSE stack
 
 TraceInit == /\ l = 1 /\ prog = [funcs |-> <<>>, rules |-> <<>>, rsets |-> <<>>]
-             /\ rows = {} /\ active = {} /\ stack = <<>> /\ res = "ok"
+             /\ rows = {} /\ active = {} /\ stack = <<>> /\ res = "ok" /\ tainted = FALSE
 
 TraceNext == TDecl \/ TCmd
-TraceSpec == TraceInit /\ [][TraceNext]_<<vars, l>>
+TraceSpec == TraceInit /\ [][TraceNext]_<<vars, l, tainted>>
 =============================================================================
